@@ -86,8 +86,10 @@ class AllocatorAwarePointer
     }
 
     constexpr AllocatorAwarePointer(AllocatorAwarePointer&& other) noexcept
-        : impl_(other.release(), other.size(), other.get_allocator())
+        : impl_(other.get(), other.size(), other.get_allocator())
     {
+        other.get() = nullptr;
+        other.size() = {};
     }
 
 #if __cpp_constexpr_dynamic_alloc
@@ -132,7 +134,7 @@ class AllocatorAwarePointer
             deallocate();
             propagate_on_container_move_assignment(other);
             get() = other.release();
-            size() = other.size();
+            size() = std::exchange(other.size(), {});
         }
         return *this;
     }
@@ -157,7 +159,7 @@ class AllocatorAwarePointer
     {
         deallocate();
         get() = other.release();
-        size() = other.size();
+        size() = std::exchange(other.size(), {});
     }
 
     constexpr void propagate_on_container_copy_assignment(const AllocatorAwarePointer& other) noexcept
